@@ -109,8 +109,21 @@ func (dec *Decoder) readStringAsBytes(utf16Length int) (data []byte, safe bool) 
 			}
 			return
 		}
-		data = append(data, dec.buf[dec.head:dec.head-remains]...)
-		dec.head -= remains
+		// complete the character that straddles the refill; it may take several refills
+		for need := -remains; need > 0; {
+			avail := dec.tail - dec.head
+			if avail > need {
+				avail = need
+			}
+			data = append(data, dec.buf[dec.head:dec.head+avail]...)
+			dec.head += avail
+			if need -= avail; need > 0 && !dec.loadMore() {
+				if dec.Error == nil {
+					dec.Error = ErrInvalidUTF8
+				}
+				return
+			}
+		}
 		length = dec.tail - dec.head
 	}
 }
@@ -153,9 +166,16 @@ func (dec *Decoder) readSafeString(utf16Length int) (s string) {
 
 // ReadUnsafeString reads unsafe string.
 func (dec *Decoder) ReadUnsafeString() (s string) {
-	s = dec.readUnsafeString(dec.ReadInt())
+	data, safe := dec.readStringAsBytes(dec.ReadInt())
+	if !safe && dec.head == dec.tail {
+		// the closing quote is not buffered yet: skipping it refills the buffer that data aliases
+		data = append([]byte(nil), data...)
+	}
 	dec.Skip()
-	return
+	if data == nil {
+		return
+	}
+	return convert.ToUnsafeString(data)
 }
 
 // ReadSafeString reads safe string.
